@@ -41,13 +41,22 @@ Example C05_nonvacuous :
   match prepare 100 sc with Prepared st dt t anc => check_static sc t anc | _ => false end = true.
 Proof. vm_compute. reflexivity. Qed.
 
-(* (b) deadlock-freedom of flat scenarios, for every behaviour and interleaving: a reachable state in which nothing is
-   in flight and some simulator is not done accepts a START or BEGIN event *)
+(* (b) deadlock-freedom, for every behaviour and interleaving: a reachable state in which nothing is in flight and some
+   simulator is not done accepts a scheduler move.  Flat scenarios (no groups): a START or a BEGIN. *)
 Theorem C05_progress_flat : forall st, static_ok st -> flat_certified st = true ->
   forall s, reached st s -> Quiet s -> (exists i, (i < nsims st)%nat /\ pc (s i) <> Done) ->
-  exists e s', start_or_begin st e /\ apply st s e = Ok s'.
+  exists e s', match e with EvStart i => (i < nsims st)%nat | EvBegin i _ _ => (i < nsims st)%nat | _ => False end /\
+               apply st s e = Ok s'.
 Proof. exact certified_flat_progress. Qed.
 Print Assumptions C05_progress_flat.
+
+(* Scenarios whose simulators all sit in the same group (any nesting depth, weak same-time loops included): a START, a
+   BEGIN, or the loop guard's SimulationError (EvLoopFail) - never a silent hang *)
+Theorem C05_progress_one_group : forall st, static_ok st -> uniform_certified st = true ->
+  forall s, reached st s -> Quiet s -> (exists i, (i < nsims st)%nat /\ pc (s i) <> Done) ->
+  exists e s', scheduler_move st e /\ apply st s e = Ok s'.
+Proof. exact certified_uniform_progress. Qed.
+Print Assumptions C05_progress_one_group.
 
 (* non-vacuity: the scenario above is flat-certified, and after both simulators have been started the state is
    reachable and quiet, and A waits for its step at time 0 *)
@@ -68,3 +77,15 @@ Proof.
   vm_compute in E. injection E as <-. split; [|split; [vm_compute; reflexivity|vm_compute; apply le_S, le_n]].
   intros j. destruct j as [|[|j]]; vm_compute; reflexivity.
 Qed.
+
+(* non-vacuity of the one-group theorem: two hybrid simulators in one group, A -> B and a weak connection B -> A
+   (a same-time loop); the tables are certified *)
+Example C05_one_group_nonvacuous :
+  let f := mkF true true false true false 0 false false true in
+  let fw := mkF true true false true false 0 true false true in
+  let sc := mkScen [None; Some 0%nat] (fun _ => 1%nat) (fun _ => Hybrid) 2
+                   [mkConn 0 1 3 1 f false 0; mkConn 1 0 3 1 fw false 0] [] 5 100 true true in
+  match prepare 100 sc with
+  | Prepared st dt t anc => check_static sc t anc = true /\ uniform_certified st = true /\ depth st 0 = 2%nat
+  | _ => False end.
+Proof. vm_compute. auto. Qed.
